@@ -2,7 +2,7 @@
    Only statements here; every proof is [exact <lemma of Proofs/C13*.v>].
    [run w evs] executes an event list (Protect / Seq / Unprotect / CleanStop, each optionally with a crash after its
    k-th file-system effect; Kill; Reload) on a world = live process state (or none) + disk state (Model/C13.v). *)
-From Verif Require Import Lib.Py Lib.Tactics Gen.oscore_replay Model.C12 Model.C13 Proofs.C12 Proofs.C13 Proofs.C13replay Proofs.C13Kernel.
+From Verif Require Import Lib.Py Lib.Tactics Gen.oscore_replay Model.C12 Model.C13 Proofs.C12 Proofs.C13 Proofs.C13replay Proofs.C13reuse Proofs.C13Kernel.
 From Verif Require Gen.oscore_seqno Gen.oscore_rwchanged.
 From Coq Require Import Sorted.
 Open Scope Z_scope.
@@ -105,6 +105,23 @@ Theorem C13_clean_stop_preserves : forall sz p d A d', 0 < sz -> ProcOK sz p d A
 Proof. exact clean_stop_exact. Qed.
 Print Assumptions C13_clean_stop_preserves.
 
+(* ---- nonces of requests reused for responses (round 5, audit gap 1) ----
+   unprotect hands on request identifiers with can_reuse_nonce; [Respond] = protect(..., request_id=...) encrypts the response
+   under the request's nonce exactly when that flag is set (output [OReused n]) and clears it, otherwise takes an own number.
+   Over every history: no request's nonce is used for two responses, and only for requests accepted through the window check —
+   with C13_issued_nodup (own numbers) this is "no AEAD nonce under the sender key twice" for everything the context encrypts. *)
+Theorem C13_reused_nonces_nodup : forall w evs, ROK w [] -> w_proc w = None -> Forall ev_ok2 evs -> fresh_echo_run w [] evs ->
+  NoDup (reused (snd (run w evs))) /\
+  (forall n, In n (reused (snd (run w evs))) -> In n (accepted evs (snd (run w evs)))).
+Proof. exact reused_nodup. Qed.
+Print Assumptions C13_reused_nonces_nodup.
+(* identifiers built while the replay state is unknown (Echo challenge, Echo recovery) or for a rejected request never allow reuse *)
+Theorem C13_no_reuse_unless_window_accepts : forall c r, CtxInv c -> 0 <= seqno r ->
+  (window c = None \/ snd (unprotect_request c r) <> Accept) ->
+  forall n, pend_of c r (snd (unprotect_request c r)) <> Some (n, true).
+Proof. exact no_reuse_unless_window_accepts. Qed.
+Print Assumptions C13_no_reuse_unless_window_accepts.
+
 (* sequence.json only ever changes by the rename of a temp file whose content had been fsynced *)
 Theorem C13_sequence_json_durable : forall w evs, d_durable (w_disk w) = true -> d_durable (w_disk (fst (run w evs))) = true.
 Proof. exact run_durable. Qed.
@@ -196,4 +213,30 @@ Example C13_kernel_doctest :
        oscore_seqno.fsc_sequence_number_chunksize := 20; oscore_seqno.fsc_sequence_number_chunksize_limit := 10000 |}
   = Ok ({| oscore_seqno.fsc_sender_sequence_number := 11; oscore_seqno.fsc_sequence_number_persisted := 30;
            oscore_seqno.fsc_sequence_number_chunksize := 40; oscore_seqno.fsc_sequence_number_chunksize_limit := 10000 |}, 10).
+Proof. vm_compute. reflexivity. Qed.
+
+(* ---- _store raising instead of dying (round 5, audit gap 2; OPEN FINDING C13:store-error-*, fixes/C13-store-error-rollback.diff) ----
+   [ev_ok] / [ev_ok2] exclude ProtectFails / UnprotectFails; the faithful model shows why: post_seqnoincrease advances
+   sequence_number_persisted BEFORE _store, so after an OSError the next numbers are handed out above the bound on disk ... *)
+Example C13_store_error_refuted :
+  issued (snd (run (initial_world 32 None)
+     [Reload 10 10000 1000; Seq 10 None; ProtectFails 1; Seq 5 None; Kill; Reload 10 10000 1005; Seq 2 None]))
+  = [0; 1; 2; 3; 4; 5; 6; 7; 8; 9;  11; 12; 13; 14; 15;  10; 11].
+Proof. vm_compute. reflexivity. Qed.
+(* ... and _replay_window_changed clears replay_window_persisted BEFORE _store, so after an OSError later acceptances are never
+   reflected on disk: 6 is accepted, the process dies, and 6 is accepted again by the reloaded (here: fresh) window *)
+Example C13_store_error_replay_refuted :
+  let evs := [Reload 10 10000 1000; UnprotectFails {| seqno := 5; authentic := true; echo := None |} 0;
+              Unprotect {| seqno := 6; authentic := true; echo := None |} None; Kill;
+              Reload 10 10000 1004; Unprotect {| seqno := 6; authentic := true; echo := None |} None] in
+  accepted evs (snd (run (initial_world 32 None) evs)) = [6; 6].
+Proof. vm_compute. reflexivity. Qed.
+(* a response to a window-accepted request reuses its nonce once; the Echo challenge and the Echo-recovered request never do *)
+Example C13_reuse_doctest :
+  snd (run (initial_world 32 None)
+    [Reload 10 10000 1000; Unprotect {| seqno := 5; authentic := true; echo := None |} None; Respond None; Respond None; Kill;
+     Reload 10 10000 1005; Unprotect {| seqno := 5; authentic := true; echo := None |} None; Respond None;
+     Unprotect {| seqno := 7; authentic := true; echo := Some 1005 |} None; Respond None])
+  = [OLoaded 0 true; OUnprot Accept; OReused 5; OIssued 0; ODied;
+     OLoaded 10 false; OUnprot RejectEcho; OIssued 10; OUnprot Accept; OIssued 11].
 Proof. vm_compute. reflexivity. Qed.
